@@ -11,7 +11,7 @@ from vpkit import common, pairs, zoo
 
 ID = "C38"
 N = {"quick": 90, "thorough": 3000}
-BUDGET = {"quick": 240.0, "thorough": 1500.0}
+BUDGET = {"quick": 240.0, "thorough": 700.0}
 RULE = ("case = (multi-tree contemporaneous input, optionally with a grand MRCA added on top or "
         "several roots of different ages, random renumbering of non-sample nodes); distinct by "
         "(topology hash, options, permutation); non-trivial = pair compared and the oldest root is "
